@@ -1,4 +1,69 @@
-From V.model Require Import Base Deb822Lex Deb822Parse Grammar Deb822Edit.
-Theorem C05_placeholder : True. Proof. exact I. Qed.
-Check C05_placeholder : True.
-Print Assumptions C05_placeholder.
+(* C05 — adding, inserting and removing paragraphs behaves like list operations.
+   Statements only.
+   tstep2 = the model of Deb822::{add_paragraph, insert_paragraph, remove_paragraph} and of the
+            field edits of C04 (coq/model/Deb822Edit.v);
+   sstep2 = push / insert(i) (beyond the end appends) / remove(i) (beyond the end does nothing)
+            on the list of paragraphs, each a list of (name, value) pairs;
+   live documents (LiveDoc.lwf): every parsed well-formed document (leading/trailing comments,
+            several blank lines, missing final newline), the empty document, and whatever the
+            operations produce from them. *)
+From V.model Require Import Base Deb822Lex Deb822Parse Grammar Lossy Deb822Edit LiveDoc.
+From V.proofs Require Import Deb822EditP LiveDocP LiveParaP.
+
+(* Any finite history of add / insert(i) / remove(i) (every index) interleaved with field edits,
+   from any live document: the live object reports the list-model content, the result is again
+   a live document (in particular paragraphs stay separated by a blank line), and the printed
+   text re-reads without error to the same non-empty paragraphs in the same order. *)
+Theorem C05_history : forall ops d, lwf d = true -> ops_ok2 d ops ->
+  let t' := fold_left tstep2 ops (ltree_of d) in
+  t' = ltree_of (fold_left astep2 ops d) /\ lwf (fold_left astep2 ops d) = true /\
+  doc_items t' = fold_left sstep2 ops (doc_items (ltree_of d)) /\
+  exists t'', from_str (text t') = Ok t'' /\ doc_items t'' = nonempty_paras (doc_items t').
+Proof. exact C05_history_all. Qed.
+Check C05_history : forall ops d, lwf d = true -> ops_ok2 d ops ->
+  let t' := fold_left tstep2 ops (ltree_of d) in
+  t' = ltree_of (fold_left astep2 ops d) /\ lwf (fold_left astep2 ops d) = true /\
+  doc_items t' = fold_left sstep2 ops (doc_items (ltree_of d)) /\
+  exists t'', from_str (text t') = Ok t'' /\ doc_items t'' = nonempty_paras (doc_items t').
+Print Assumptions C05_history.
+
+(* One step, with the abstract layout it produces: what changes in the document is exactly what
+   a_add / a_insert_para / a_remove_para say — the new empty paragraph and one blank line (plus
+   the terminator of an unterminated last line when appending), resp. the removed paragraph and
+   one blank line after it; every other block (paragraph, comment, blank line) is untouched. *)
+Theorem C05_step : forall d o, lwf d = true -> op_ok2 d o ->
+  tstep2 (ltree_of d) o = ltree_of (astep2 d o) /\ lwf (astep2 d o) = true /\
+  lcontent (astep2 d o) = sstep2 (lcontent d) o.
+Proof. exact tstep2_live. Qed.
+Check C05_step : forall d o, lwf d = true -> op_ok2 d o ->
+  tstep2 (ltree_of d) o = ltree_of (astep2 d o) /\ lwf (astep2 d o) = true /\
+  lcontent (astep2 d o) = sstep2 (lcontent d) o.
+Print Assumptions C05_step.
+
+(* Separation: in a live document a paragraph is followed by a blank line or by nothing. *)
+Theorem C05_separated : forall d, lwf d = true -> separated d = true.
+Proof. exact lwf_separated. Qed.
+Check C05_separated : forall d, lwf d = true -> separated d = true.
+Print Assumptions C05_separated.
+
+(* Starting points: the empty document and every parsed well-formed document. *)
+Theorem C05_start : (deb822_of_paragraphs [] = ltree_of [] /\ lwf [] = true) /\
+  forall d : doc, wf_doc d = true -> from_str (render d) = Ok (ltree_of (lift d)) /\ lwf (lift d) = true.
+Proof. split; [exact new_is_live|exact parsed_is_live]. Qed.
+Check C05_start : (deb822_of_paragraphs [] = ltree_of [] /\ lwf [] = true) /\
+  forall d : doc, wf_doc d = true -> from_str (render d) = Ok (ltree_of (lift d)) /\ lwf (lift d) = true.
+Print Assumptions C05_start.
+
+(* Non-vacuity: leading comment, missing final newline, indices in and out of range. *)
+Example C05_ex :
+  let f1 := mk_field [65]%N [32]%N [49]%N [] true in
+  let f2 := mk_field [66]%N [32]%N [50]%N [] false in
+  let d := lift [BComment [120]%N true; BBlank; BPara f1 []; BBlank; BPara f2 []] in
+  let ops := [DRemove 0; DAdd; DF (OSet 1 [67]%N [51]%N); DInsert 7; DInsert 0; DRemove 9; DRemove 3] in
+  lwf d = true /\ ops_ok2 d ops /\
+  doc_items (fold_left tstep2 ops (ltree_of d)) = [[]; [([66], [50])]; [([67], [51])]]%N /\
+  text (fold_left tstep2 ops (ltree_of d)) = [10; 35; 120; 10; 10; 66; 58; 32; 50; 10; 10; 67; 58; 32; 51; 10; 10]%N.
+Proof.
+  cbv zeta. split; [vm_compute; reflexivity|]. split; [|split; vm_compute; reflexivity].
+  cbn [ops_ok2 op_ok2 op_ok]. repeat split; vm_compute; reflexivity.
+Qed.
